@@ -959,7 +959,33 @@ def install(reg):
     reg.methods[("$cursor", "fetchone")] = lambda I, a, k: cursor_fetchone(I, a[0])
 
     def cursor_fetchall(I, a, k):
-        raise Unsupported("cursor.fetchall (set-valued query result)")
+        """The result set of a SELECT that does not pin the primary key: a list of rows whose keys are exactly the keys of
+        the table that satisfy the WHERE clause, each once (ORDER BY / LIMIT are not represented: Unsupported)."""
+        from .typesys import fresh_value
+        from .values import Seg
+
+        rec = I.st.objs[a[0].oid]
+        rows = rec.meta.get("rows")
+        stmt = rec.meta["stmt"]
+        if rows is None or rows[0] != "any" or stmt.limit is not None or stmt.order_by:
+            raise Unsupported("cursor.fetchall on this kind of query")
+        tab = rec.meta["tab"]
+        ev = SqlEval(I, rec.meta.get("params"))
+        keys = fresh_value(I.st, I.typer, ("list", ("int",)), "rows")
+        arr = I._elem_array(keys.lid, "$v", z3.IntSort())
+        n = I.ops.list_len(keys)
+        i, j, r = z3.Int(fresh_name("ri")), z3.Int(fresh_name("rj")), z3.Int(fresh_name("rk"))
+        sat = lambda key: z3.And(z3.Select(tab.exists, key), ev.cond(stmt.where, tab, key))
+        idx_of = z3.Function(fresh_name("row_index"), z3.IntSort(), z3.IntSort())
+        I.st.assume(z3.ForAll([i], z3.Implies(z3.And(i >= 0, i < n), sat(z3.Select(arr, i)))))
+        I.st.assume(z3.ForAll([r], z3.Implies(sat(r), z3.And(idx_of(r) >= 0, idx_of(r) < n, z3.Select(arr, idx_of(r)) == r))))
+        I.st.assume(z3.ForAll([i, j], z3.Implies(z3.And(i >= 0, i < n, j >= 0, j < n, z3.Select(arr, i) == z3.Select(arr, j)), i == j)))
+        g = fresh_int("g")
+        key_g = z3.Select(arr, g)
+        row = new_row(I, stmt, tab, key_g)
+        I.st.objs[row.oid].meta["values"] = _project(I, ev, stmt, tab, key_g)
+        I.st.emit("sql_fetchall", table=stmt.table, keys=keys, where=stmt.where, tab=tab, sat=sat)
+        return I.ops.new_derived([Seg(keys.lid, (), n, g, TRUE, row)])
 
     reg.methods[("$cursor", "fetchall")] = cursor_fetchall
 
